@@ -47,7 +47,7 @@ ENCODING = ["fcp.encoding:PackedEncoder._get_type_length", "fcp.encoding:PackedE
             "fcp.specs.type:NumericType.get_length", "fcp.specs.enum:Enum.max", "lemmas:max_is_enum_max"]
 
 # per-function solver budgets (ms) above the tier default: sized so that the verdict does not flip on a loaded machine
-SLOW = {"fcp.serde:_decode": 60000, "lemmas:rt": 60000, "theorems:C01_roundtrip": 60000, "lemmas:rt_str": 30000, "fcp.serde:_decode_struct": 60000, "fcp.serde:_decode_str": 30000, "fcp.serde:decode": 30000, "fcp.serde:_encode": 30000,
+SLOW = {"fcp.serde:_decode": 60000, "lemmas:unpack_byte": 60000, "lemmas:bit_eq": 30000, "lemmas:rt_dyn": 30000, "lemmas:rt": 60000, "theorems:C01_roundtrip": 60000, "lemmas:rt_str": 30000, "fcp.serde:_decode_struct": 60000, "fcp.serde:_decode_str": 30000, "fcp.serde:decode": 30000, "fcp.serde:_encode": 30000,
         "fcp.serde:_decode_dynamic_array": 30000, "fcp.serde:_encode_struct": 30000}
 
 PLANS = {
